@@ -12,6 +12,7 @@
 (*   callSite  = TRUE  macro arguments are evaluated in the caller's scope (C09)                *)
 (*   phaseCheck = TRUE a size that differs between label pass and emission is a failure (C02)   *)
 EXTENDS Bus, Instr, IsaSupported, TLC, Bitwise
+Tbl == INSTANCE Table      \* character tables (.table / .text)
 
 \* ---- results of evaluation ---------------------------------------------------------------
 EV(v) == [ok |-> TRUE, v |-> v]
@@ -62,7 +63,8 @@ XInit(defines) ==
     [nodes |-> <<>>, scopes |-> <<[parent |-> 0, kind |-> "root", name |-> ""]>>,
      defs |-> [p \in {<<Root, defines[j].n>> : j \in 1..Len(defines)} |->
                  [v |-> (CHOOSE d \in Range(defines) : d.n = p[2]).v, t |-> 0, lab |-> FALSE]],
-     codes |-> << >>, macros |-> << >>, decls |-> <<>>, fail |-> FALSE, unspec |-> FALSE, why |-> "", depth |-> 0]
+     codes |-> << >>, macros |-> << >>, decls |-> <<>>, fail |-> FALSE, unspec |-> FALSE, why |-> "", depth |-> 0,
+     tabs |-> << >>]      \* tabs: scope id -> index of the table loaded in that scope (prog.tables)
 
 XFail(X, why) == [X EXCEPT !.fail = TRUE, !.why = why]
 \* re-definition of a name within one scope is outside the statements
@@ -74,6 +76,10 @@ RECURSIVE FindCode(_, _, _, _)
 FindCode(p, sid, scopes, codes) ==
     IF <<sid, p>> \in DOMAIN codes THEN [ok |-> TRUE, b |-> codes[<<sid, p>>]]
     ELSE IF sid = Root THEN [ok |-> FALSE, b |-> <<>>] ELSE FindCode(p, scopes[sid].parent, scopes, codes)
+
+\* the table in force in scope sid: the nearest scope of the chain that loaded one (0 = none)
+RECURSIVE TableFor(_, _, _)
+TableFor(sid, scopes, tabs) == IF sid \in DOMAIN tabs THEN tabs[sid] ELSE IF sid = Root THEN 0 ELSE TableFor(scopes[sid].parent, scopes, tabs)
 
 RECURSIVE XStmts(_, _, _, _), XStmt(_, _, _, _), XArgs(_, _, _, _, _, _, _), XLoop(_, _, _, _, _, _)
 XStmts(ss, sid, X, callSite) ==
@@ -112,6 +118,9 @@ XStmt(s, sid, X, callSite) ==
       [] s.k = "stareq" -> XNode(X, [k |-> "stareq", sid |-> sid, e |-> s.e])
       [] s.k = "ateq"   -> XNode(X, [k |-> "ateq", sid |-> sid, e |-> s.e])
       [] s.k = "map"    -> [X EXCEPT !.decls = Append(@, s.decl)]
+      \* .table loads a table into the current scope at expansion time; .text captures the table in force there
+      [] s.k = "table"  -> [X EXCEPT !.tabs = (sid :> s.t) @@ @]
+      [] s.k = "text"   -> XNode(X, [k |-> "text", sid |-> sid, tbl |-> TableFor(sid, X.scopes, X.tabs), s |-> s.s])
       [] s.k \in {"block", "scope"} ->
             LET X1 == NewScope(X, sid, IF s.k = "scope" THEN "named" ELSE "block", IF s.k = "scope" THEN s.n ELSE "")
                 b == Len(X1.scopes)
@@ -174,7 +183,7 @@ OpWidth(node, scopes, defs) ==
 MoveTarget(node, scopes, defs) == Eval(node.e, node.sid, scopes, defs)
 
 \* size of a node in the label pass (Dead states pass through)
-StepLabel(node, scopes, bus, P) ==
+StepLabel(node, scopes, bus, P, tables) ==
     IF Dead(P) THEN P ELSE
     CASE node.k = "label" -> IF <<node.sid, node.n>> \in DOMAIN P.defs THEN PUnspec(P, "name redefined in one scope")
                              ELSE IF P.run < 0 THEN PUnspec(P, "label before any *=")
@@ -189,6 +198,8 @@ StepLabel(node, scopes, bus, P) ==
       [] node.k = "branch" -> [Adv(bus, P, 2) EXCEPT !.pred = Append(@, 2)]
       [] node.k = "data"   -> [Adv(bus, P, DataWidth(node.d)) EXCEPT !.pred = Append(@, DataWidth(node.d))]
       [] node.k = "bytes"  -> [Adv(bus, P, Len(node.bs)) EXCEPT !.pred = Append(@, Len(node.bs))]
+      [] node.k = "text"   -> IF node.tbl = 0 THEN PFail(P, ".text without a table in force")
+                              ELSE LET n == Len(Tbl!Encode(tables[node.tbl], node.s)) IN [Adv(bus, P, n) EXCEPT !.pred = Append(@, n)]
       [] node.k = "incbin" -> IF <<node.sid, node.sym>> \in DOMAIN P.defs THEN PUnspec(P, "name redefined in one scope")
                               ELSE IF P.run < 0 THEN PUnspec(P, "incbin before any *=")
                               ELSE LET d1 == Define(P.defs, scopes, node.sid, node.sym, P.run, 1, TRUE)
@@ -236,7 +247,7 @@ BranchResult(bus, mn, A, T) ==
          IF d < -128 \/ d > 127 THEN [r |-> "fail", bs |-> <<>>]
          ELSE [r |-> "ok", bs |-> <<Opcode(mn, "rel8"), d % 256>>]
 
-StepEmit(node, i, scopes, bus, P, phaseCheck) ==
+StepEmit(node, i, scopes, bus, P, phaseCheck, tables) ==
     IF Dead(P) THEN P ELSE
     CASE node.k \in {"def", "darg", "enter", "exit"} -> P
       \* C02: a label is where the next byte is emitted, or the assembly fails (phaseCheck = FALSE: pinned design)
@@ -265,6 +276,7 @@ StepEmit(node, i, scopes, bus, P, phaseCheck) ==
             LET v == Eval(node.e, node.sid, scopes, P.defs) IN
             IF ~v.ok THEN PFail(P, "data over an undefined name") ELSE PutBytes(bus, P, LE(v.v, DataWidth(node.d)))
       [] node.k = "bytes" -> PutBytes(bus, P, node.bs)
+      [] node.k = "text"  -> PutBytes(bus, P, Tbl!Encode(tables[node.tbl], node.s))
       [] node.k = "incbin" -> IF phaseCheck /\ P.defs[<<node.sid, node.sym>>].v # P.run
                               THEN PFail(P, "incbin symbol moved between the label pass and emission")
                               ELSE PutBytes(bus, P, node.bs)
@@ -275,10 +287,10 @@ StepEmit(node, i, scopes, bus, P, phaseCheck) ==
             ELSE [P EXCEPT !.run = t.v, !.reloc = TRUE]
 
 \* ---- folding the passes ------------------------------------------------------------------
-RECURSIVE FoldLabel(_, _, _, _, _), FoldSymbol(_, _, _, _, _), FoldEmit(_, _, _, _, _, _)
-FoldLabel(nodes, i, scopes, bus, P) == IF i > Len(nodes) THEN P ELSE FoldLabel(nodes, i + 1, scopes, bus, StepLabel(nodes[i], scopes, bus, Note(P)))
+RECURSIVE FoldLabel(_, _, _, _, _, _), FoldSymbol(_, _, _, _, _), FoldEmit(_, _, _, _, _, _, _)
+FoldLabel(nodes, i, scopes, bus, P, tb) == IF i > Len(nodes) THEN P ELSE FoldLabel(nodes, i + 1, scopes, bus, StepLabel(nodes[i], scopes, bus, Note(P), tb), tb)
 FoldSymbol(nodes, i, scopes, bus, P) == IF i > Len(nodes) THEN P ELSE FoldSymbol(nodes, i + 1, scopes, bus, StepSymbol(nodes[i], scopes, bus, P))
-FoldEmit(nodes, i, scopes, bus, P, pc) == IF i > Len(nodes) THEN P ELSE FoldEmit(nodes, i + 1, scopes, bus, StepEmit(nodes[i], i, scopes, bus, Note(P), pc), pc)
+FoldEmit(nodes, i, scopes, bus, P, pc, tb) == IF i > Len(nodes) THEN P ELSE FoldEmit(nodes, i + 1, scopes, bus, StepEmit(nodes[i], i, scopes, bus, Note(P), pc, tb), pc, tb)
 
 \* between passes the position is reset (Program.resolver_reset); definitions are kept
 Reset(P) == [P EXCEPT !.run = -1, !.off = -1, !.reloc = FALSE, !.at = <<>>, !.offs = <<>>, !.rel = <<>>]
@@ -294,9 +306,10 @@ Run(prog, callSite, phaseCheck) ==
     IF X.fail THEN [outcome |-> "fail", img |-> <<>>, labels |-> {}, why |-> X.why, nodes |-> <<>>, scopes |-> X.scopes,
                     defs |-> X.defs, at1 |-> <<>>, at3 |-> <<>>, offs3 |-> <<>>, rel3 |-> <<>>, bus |-> LoROM]
     ELSE LET bus == BusFor(prog, X)
-             P1 == FoldLabel(X.nodes, 1, X.scopes, bus, PInit(X))
+             tb == IF "tables" \in DOMAIN prog THEN prog.tables ELSE <<>>
+             P1 == FoldLabel(X.nodes, 1, X.scopes, bus, PInit(X), tb)
              P2 == FoldSymbol(X.nodes, 1, X.scopes, bus, Reset(KeepTrace(P1)))
-             P3 == FoldEmit(X.nodes, 1, X.scopes, bus, Reset(P2), phaseCheck)
+             P3 == FoldEmit(X.nodes, 1, X.scopes, bus, Reset(P2), phaseCheck, tb)
          IN [outcome |-> IF P3.unspec THEN "unspec" ELSE IF P3.fail THEN "fail"
                          \* sizes differed between the passes but no position-derived symbol moved: the emitted
                          \* bytes (widths by the values at emission, C01) are right, and refusing is allowed too (C02)
